@@ -28,6 +28,7 @@ func genCase(t *rapid.T, o verifnet.GenOpts, allowLegacy bool, maxPerturb int) x
 	x.Mode = rapid.SampledFrom([]string{"scan", "paths"}).Draw(t, "mode")
 	x.QUICVis = rapid.Bool().Draw(t, "quic_visibility")
 	x.Window = rapid.SampledFrom([]int{0, 0, 0, 64, 1000, 70000}).Draw(t, "window")
+	x.Segment = rapid.SampledFrom([]int{0, 0, 1, 5, 1200}).Draw(t, "segment")
 	if allowLegacy && rapid.IntRange(0, 5).Draw(t, "legacy") == 0 {
 		x.Legacy = true
 		x.Conns = 1
